@@ -165,11 +165,17 @@ afterwards, or a description of the disagreement. -/
 def corrRun (known owned : List Nat) (node : Bytes) (acc : Bundle) (store : Option Bundle) (r : Run) (txs : List Tx) :
     Except String (Option Bundle) :=
   let mine := txs.filter (·.k == r.k)
-  let step (el now : Nat) : Option Bundle × Option Bundle :=
-    if r.k == 0 then receive cfg known node acc el now else retry cfg node store el now
+  -- a retry reads the clock twice: when the stored bytes are parsed (`loadOk`) and in `forward`
+  let step2 (el nowLoad nowFwd : Nat) : Option Bundle × Option Bundle :=
+    if r.k == 0 then receive cfg known node acc el nowFwd
+    else match store with
+      | none => (none, none)
+      | some st => if loadOk st nowLoad then forward cfg node st el nowFwd (some st) else (none, some st)
+  let step (el now : Nat) : Option Bundle × Option Bundle := step2 el now now
   match mine with
   | [] =>
-    let cands := [step r.elLo r.nowLo, step r.elHi r.nowHi, step r.elLo r.nowHi, step r.elHi r.nowLo]
+    let cands := [step r.elLo r.nowLo, step r.elHi r.nowHi, step r.elLo r.nowHi, step r.elHi r.nowLo,
+      step2 r.elLo r.nowLo r.nowHi, step2 r.elHi r.nowLo r.nowHi]
     -- nothing handed over and the bundle still stored: either the model refuses as well, or no
     -- convergence sender was selected in this run (routing, not part of this property)
     match cands.find? (fun c => c.2.isSome == r.stored && (c.1.isNone || r.stored)) with
